@@ -337,7 +337,8 @@ Definition step (s : rstate) (o : op) : rstate * option err :=
                 | [] => (s, Some EKeyError)
                 | _ :: r => (mkR (st_code s) (rev r) (st_jar s), None)
                 end
-  | OClearNames names => (mkR (st_code s) (clear_names (st_store s) names) (st_jar s), None)
+  | OClearNames names =>                                         (* no name at all: everything is cleared *)
+    (mkR (st_code s) (match names with [] => [] | _ => clear_names (st_store s) names end) (st_jar s), None)
   | ODelProp p => del_key s (prop_name p)
   | OStatusBad => (s, Some EValueError)
   end.
